@@ -5,6 +5,7 @@ mod exec;
 mod model;
 mod ops;
 mod parse;
+mod print;
 mod report;
 mod scenario;
 
@@ -57,6 +58,25 @@ fn run(args: &[String]) -> Result<i32, String> {
             let engine = args.get(2).ok_or("engine")?;
             let input = args.get(3).ok_or("input")?;
             let out = args.get(4).ok_or("report path")?;
+            if engine == "print" {
+                // sequential: also writes the printed texts as a trace (arg 5) for TLC validation
+                let trace_path = args.get(5).ok_or("print: trace path")?;
+                let mut rep = report::Report::default();
+                let mut trace: Vec<J> = Vec::new();
+                let n = for_each_case(input, |case| print::replay_print(case, &mut rep, &mut trace))?;
+                if n == 0 {
+                    return Err(format!("no cases in {input}"));
+                }
+                let mut out_s = String::new();
+                for t in &trace {
+                    out_s.push_str(&serde_json::to_string(t).unwrap());
+                    out_s.push('\n');
+                }
+                std::fs::write(trace_path, out_s).map_err(|e| e.to_string())?;
+                std::fs::write(out, serde_json::to_string(&rep.to_json()).unwrap()).map_err(|e| e.to_string())?;
+                println!("replayed {} cases ({} evaluations), {} mismatches, {} tool errors", rep.cases, rep.evaluations, rep.mismatch_count, rep.tool_errors.len());
+                return Ok(if !rep.tool_errors.is_empty() { 2 } else if rep.mismatch_count > 0 { 1 } else { 0 });
+            }
             // read all cases, then replay them on all cores (cases are independent)
             let mut cases: Vec<J> = Vec::new();
             let n = for_each_case(input, |case| cases.push(case.clone()))?;
